@@ -475,6 +475,32 @@ theorem exclusive_section_alone (f : Facts) (hd : lockDiscipline f = true)
   cases hpre'
   exact halone i hi ((hsound.2.2 (site i) (hsite i)).2 hmut)
 
+/-- **(a), end to end: N threads × swap leave a permutation.** Any number of
+instances each swap two positions of one shared list, each through a lock site of
+the generated facts under which a writing method runs. If the discipline holds,
+every complete trace the lock admits — every interleaving of the micro-steps of
+all swaps that the lock does not forbid — computes exactly what the swaps
+compute when run one after the other in the order in which they got the lock,
+and the final list is a permutation of the initial one. (This is the oracle of
+the harness classes `swap-rust` / `swap-script`.) -/
+theorem exclusive_swaps_permute (f : Facts) (hd : lockDiscipline f = true)
+    (site : Nat → LockSite) (hsite : ∀ i, site i ∈ f.lockSites)
+    (hmut : ∀ i, siteNeedsExcl f (site i) = true)
+    (a b : Nat → Nat) (tr : List Micro) (arr : List Nat)
+    (hrun : runLock (lockKind f.listCell) (fun j => (site j).mode) [] (tr.map Micro.toEv) = some [])
+    (hprog : ∀ i, projMicro i tr = [] ∨ projMicro i tr = swapProg i (a i) (b i))
+    (hb : ∀ i, a i < arr.length ∧ b i < arr.length) :
+    execMicro (arr, []) tr = (acqOrder tr).foldl (fun arr i => swapList arr (a i) (b i)) arr
+    ∧ (execMicro (arr, []) tr).Perm arr := by
+  have hsound := (shared_list_write_exclusive.share_sound_lock f).mp hd
+  have hex : ∀ i, grantsExcl (lockKind f.listCell) ((fun j => (site j).mode) i) = true :=
+    fun i => (hsound.2.2 (site i) (hsite i)).2 (hmut i)
+  have hser := exclusive_swaps_serialize (lockKind f.listCell) (fun j => (site j).mode) a b hex
+    tr.length tr (Nat.le_refl _) hrun hprog arr []
+  refine ⟨hser, ?_⟩
+  rw [hser]
+  exact foldl_swap_perm a b _ arr hb
+
 /-- **Refutation for a shared mode** (`RwLock::read` around `swap`): the lock
 admits a trace in which `swap(0,1)` and `swap(1,2)`, each running exactly its own
 program, overlap; the list `[0,1,2]` ends as `[1,2,1]` — element 0 lost, 1
@@ -613,6 +639,28 @@ example :
     ∧ siteNeedsExcl good (site 1) = true := by
   refine ⟨fun i => ?_, by decide, by decide⟩
   by_cases h : i = 0 <;> simp [h, good]
+
+/-- the hypotheses of `exclusive_swaps_permute` are satisfiable: two swaps through
+the mutex-protected swap site, one after the other (the only kind of trace a
+mutex admits) -/
+example :
+    let site : Nat → LockSite := fun _ => { mode := .mutexLock, calls := [1], mutBorrow := false }
+    let a : Nat → Nat := fun i => if i = 0 then 0 else 1
+    let b : Nat → Nat := fun i => if i = 0 then 1 else 2
+    let tr := swapProg 1 1 2 ++ swapProg 0 0 1
+    lockDiscipline good = true ∧ (∀ i, site i ∈ good.lockSites) ∧ (∀ i, siteNeedsExcl good (site i) = true)
+    ∧ runLock (lockKind good.listCell) (fun j => (site j).mode) [] (tr.map Micro.toEv) = some []
+    ∧ (∀ i, projMicro i tr = [] ∨ projMicro i tr = swapProg i (a i) (b i))
+    ∧ execMicro ([7, 8, 9], []) tr = [9, 7, 8] := by
+  refine ⟨by decide, fun _ => by simp [good], fun _ => by simp [siteNeedsExcl, good, RawMethod.needsExcl], by decide, fun i => ?_, by decide⟩
+  by_cases h0 : i = 0
+  · subst h0; exact Or.inr (by decide)
+  · by_cases h1 : i = 1
+    · subst h1; exact Or.inr (by decide)
+    · refine Or.inl ?_
+      have e0 : ¬ (0 : Nat) = i := fun e => h0 e.symm
+      have e1 : ¬ (1 : Nat) = i := fun e => h1 e.symm
+      simp [projMicro, swapProg, Micro.toEv, Ev.inst, e0, e1]
 
 example : countRun (1, 0) [.clone, .clone, .drop, .drop, .drop] = some (0, 1) := by decide
 
